@@ -88,6 +88,7 @@ type Req struct {
 }
 
 type Res struct {
+	NoPrint bool `json:",omitempty"` // the printed tree was not asked for (tokens x runes over the budget)
 	Misuse string `json:",omitempty"`
 	Seq       int
 	OK        bool
